@@ -4,6 +4,7 @@ import copy
 import json
 import math
 import random
+import re
 import traceback
 import xml.etree.ElementTree as ET
 from typing import Any, Dict, List, Optional, Tuple
@@ -251,6 +252,8 @@ def innermost_generated_function(exc: BaseException, sdk: pysdk.Sdk, depth: int 
             if snake and snake in name:
                 name = name.replace(snake, "<cls>")
                 break
+        # property names are model-specific as well
+        name = re.sub(r"^(read_and_set|set|transform)_(?!<cls>)\w+?(?=(_from_jsonable|$))", r"\1_<prop>", name)
         result.append(name)
     return "<".join(reversed(result)) or "?"
 
@@ -261,6 +264,8 @@ def message_class(exc: BaseException) -> str:
     text = str(exc).splitlines()[0] if str(exc) else ""
     text = re.sub(r"'[^']*'|\"[^\"]*\"", "Q", text)
     text = re.sub(r"[0-9]+", "N", text)
+    # what follows the colon names classes and literals of the model
+    text = re.sub(r"(literal of|model type for|instance of class) .*$", r"\1 <cls>", text)
     return text[:70]
 
 
@@ -314,6 +319,7 @@ def check_model(chk: harness.Check, name: str, text: str, rng, n_instances: int,
             chk.case(distinct_key=(name, cls, "json") if nested else None)
             # ---- XML round trip
             xml_text = None
+            plain_strings = set(strings_in(inst))
             representable = all(xml_representable(s) for s in strings_in(inst, pm))
             if representable:
                 try:
@@ -324,10 +330,15 @@ def check_model(chk: harness.Check, name: str, text: str, rng, n_instances: int,
                     if diff is not None:
                         chk.violation(f"xml-roundtrip/{diff[0]}", dict(base, path=diff[1], document=xml_text[:3000]))
                 except Exception as err:
-                    chk.violation(
-                        f"xml-roundtrip-raised/{type(err).__name__}@{innermost_generated_function(err, sdk)}|{message_class(err)}",
-                        dict(base, error=traceback.format_exc()[-2500:]),
-                    )
+                    key = f"xml-roundtrip-raised/{type(err).__name__}@{innermost_generated_function(err, sdk)}|{message_class(err)}"
+                    if "literal of" in str(err) and any(
+                        "\r" in s for s in strings_in(inst, pm) if s not in plain_strings
+                    ):
+                        # the text of an enumeration literal holds a carriage return, which
+                        # the writer leaves raw and the XML parser turns into a line feed:
+                        # the same defect as xml-roundtrip/str-carriage-return, seen at a literal
+                        key = "xml-roundtrip/enum-literal-carriage-return"
+                    chk.violation(key, dict(base, error=traceback.format_exc()[-2500:]))
                 chk.case(
                     distinct_key=(name, cls, "xml") if nested else None,
                     sample={"model": name, "cls": cls, "json": json.dumps(jsonable)[:300] if jsonable is not None else None,
